@@ -90,6 +90,53 @@ func (s *Sim) onCommit(li *ledgerInst, rows []*Row) {
 // C05: gap-free ids, hash chain over the actual predecessor, tx ids +1
 // ---------------------------------------------------------------------------
 
+// checkHandOff looks at a batch as it is handed to Store.InsertLogs by a live process,
+// before the store decides anything: it must continue the persisted log (first id = number
+// of persisted entries, ids +1 inside the batch, transaction ids continuing the persisted
+// ones). The real database would refuse a duplicate id through its unique indexes and the
+// process would die on every write; the persisted log would stay "clean" only because
+// nothing can be written any more. The engine's obligation is on what it hands over.
+func (s *Sim) checkHandOff(li *ledgerInst, logs []*ledger.ChainedLog) {
+	if !s.wants("C05") || len(logs) == 0 {
+		return
+	}
+	c := s.chain[li.idx]
+	c.init()
+	feat := []string{}
+	if n := len(li.m.Rows); n > 0 && li.m.Rows[n-1].Gen != s.cur.Idx {
+		feat = append(feat, "first-batch-after-restart")
+	}
+	want := int64(len(li.m.Rows))
+	nextTx := c.nextTx
+	for i, l := range logs {
+		if l == nil || l.ID == nil {
+			continue
+		}
+		if l.ID.Cmp(big.NewInt(want+int64(i))) != 0 {
+			s.violate("C05", "handed-log-id-not-sequential", fmt.Sprintf("%s: the engine hands the store a batch whose log #%d carries id %s while %d entries are persisted (expected id %d)", li.name, i, l.ID, len(li.m.Rows), want+int64(i)), feat...)
+			return
+		}
+		var txid *big.Int
+		switch p := l.Data.(type) {
+		case ledger.NewTransactionLogPayload:
+			if p.Transaction != nil {
+				txid = p.Transaction.ID
+			}
+		case ledger.RevertedTransactionLogPayload:
+			if p.RevertTransaction != nil {
+				txid = p.RevertTransaction.ID
+			}
+		}
+		if txid != nil {
+			if txid.Cmp(big.NewInt(nextTx)) != 0 {
+				s.violate("C05", "handed-txid-not-sequential", fmt.Sprintf("%s: the engine hands the store log %s carrying transaction id %s, expected %d", li.name, l.ID, txid, nextTx), feat...)
+				return
+			}
+			nextTx++
+		}
+	}
+}
+
 func (s *Sim) checkChain(li *ledgerInst, c *chainState, e *Entry) {
 	if !s.wants("C05") {
 		return
@@ -703,6 +750,9 @@ func (s *Sim) finalC06(li int, name string, c *chainState) {
 	ops := s.ledgerOps(li)
 	// entries carrying a marker: the producing request must exist and must not have been rejected
 	for _, e := range c.entries {
+		if e.Row.Gen < 0 {
+			continue // seeded history (Config.TxIDBase)
+		}
 		if e.Type == "NEW_TRANSACTION" || e.Type == "SET_METADATA" {
 			o := s.opByMarker(e.Marker)
 			if e.Marker == "" || o == nil || o.Ledger != li {
